@@ -93,7 +93,7 @@ int main(int argc, char **argv) {
       if (!found) { // the parameter is unused by the witness (clang drops the attribute then): the region is never accessed through it
         bool anyUse = false;
         if (stages) for (auto &sv : *stages) { const json::Object &st = *sv.getAsObject(); Function *Fn = findFn(st); if (!Fn) continue; const json::Array *args = st.getArray("args"); if (!args) continue; for (size_t i = 0; i < args->size() && i < Fn->arg_size(); i++) { auto s2 = (*args)[i].getAsString(); if (s2 && s2->str() == d.name && jstr(st, "mod", "wit") == "wit" && !Fn->getArg(i)->use_empty()) anyUse = true; } }
-        if (anyUse) setupErrors.push_back("no dereferenceable attribute for tensor region " + d.name + " (anchor vanished?)");
+        if (anyUse && !jbool(*spec, "lenient_attrs", false)) setupErrors.push_back("no dereferenceable attribute for tensor region " + d.name + " (anchor vanished?)");
         else { d.size = d.cells * d.e.esz; d.align = d.e.esz; found = true; }
       }
       if (found && d.size < d.cells * d.e.esz) setupErrors.push_back("tensor region " + d.name + " smaller than its cells");
@@ -157,7 +157,8 @@ int main(int argc, char **argv) {
     // ---- obligations
     Comparer cmp; cmp.N.cap = jint(w, "poly_cap", 3000000);
     long nObl = 0, nOk = 0; json::Array viol, undec; std::string firstSample;
-    auto addViol = [&](json::Object o) { if (viol.size() < 12) viol.push_back(std::move(o)); else viol.push_back(json::Object{{"kind", "more"}}); };
+    long violTotal = 0;
+    auto addViol = [&](json::Object o) { violTotal++; if (viol.size() < 12) viol.push_back(std::move(o)); else if (viol.size() == 12) viol.push_back(json::Object{{"kind", "more"}}); };
     auto srcStr = [&](int s) { return s >= 0 && s < (int)I.srcs.size() ? I.srcs[s].file + ":" + std::to_string(I.srcs[s].line) + " (" + I.srcs[s].func + ")" : std::string(""); };
     bool broken = !setupErrors.empty() || !I.unsupported.empty();
     if (!broken) {
@@ -165,7 +166,7 @@ int main(int argc, char **argv) {
       if (abortedAsExpected) { std::map<std::string, int> kinds; for (auto &f : I.findings) kinds[f.kind]++; const char *standing[] = {"oob-load", "oob-store", "store-to-input", "misaligned", "alloc"}; for (auto k : standing) { nObl++; if (!kinds.count(k) || std::string(k) == "alloc") nOk++; } for (auto &f : I.findings) if (f.kind != "alloc") addViol(json::Object{{"kind", f.kind}, {"region", f.region}, {"off", f.off}, {"bytes", f.n}, {"detail", f.detail}, {"src", srcStr(f.src)}}); nObl++; nOk++; }
       else if (anyMonitor) {
         std::map<std::string, int> kinds; for (auto &f : I.findings) kinds[f.kind]++;
-        const char *standing[] = {"oob-load", "oob-store", "store-to-input", "misaligned", "alloc"};
+        const char *standing[] = {"oob-load", "oob-store", "store-to-input", "misaligned", "alloc", "undefined-global"};
         for (auto k : standing) { nObl++; if (!kinds.count(k)) nOk++; }
         for (auto &f : I.findings) addViol(json::Object{{"kind", f.kind}, {"region", f.region}, {"off", f.off}, {"bytes", f.n}, {"align", f.align}, {"detail", f.detail}, {"src", srcStr(f.src)}});
         bool expectAbn = jbool(w, "expect_abnormal", false);
@@ -186,7 +187,7 @@ int main(int argc, char **argv) {
           nObl++;
           if (r.v == V_OK) { nOk++; return; }
           json::Object j{{"kind", r.v == V_VIOLATION ? "value-mismatch" : "undecided"}, {"region", region}, {"cell", cell}, {"how", r.how}, {"got", r.got.substr(0, 400)}, {"expected", r.expected.substr(0, 400)}, {"point", r.point.substr(0, 600)}, {"src", srcStr(srcid)}, {"mode", mode}};
-          if (r.v == V_VIOLATION) addViol(std::move(j)); else if (undec.size() < 8) undec.push_back(std::move(j)); else undec.push_back(json::Object{{"kind", "more"}});
+          if (r.v == V_VIOLATION) addViol(std::move(j)); else if (undec.size() < 8) undec.push_back(std::move(j)); else if (undec.size() == 8) undec.push_back(json::Object{{"kind", "more"}});
         };
         auto cellSrc = [&](RegionDecl &d, int64_t c) { ByteRef b = I.S.R[d.id].bytes[c * d.e.esz]; return b.cell >= 0 ? I.S.cells[b.cell].src : -1; };
         if (kind == "equal") {
@@ -259,7 +260,7 @@ int main(int argc, char **argv) {
     broken = !setupErrors.empty() || !I.unsupported.empty();
     std::string status = broken ? "unsupported" : (!viol.empty() ? "violation" : (!undec.empty() ? "undecided" : "ok"));
     out["status"] = status; out["obligations"] = (int64_t)nObl; out["discharged"] = (int64_t)nOk;
-    if (!viol.empty()) out["violations"] = std::move(viol);
+    if (!viol.empty()) { out["violations"] = std::move(viol); out["violations_total"] = (int64_t)violTotal; }
     if (!undec.empty()) out["undecided"] = std::move(undec);
     if (broken) { json::Array u; for (auto &s : setupErrors) u.push_back("setup: " + s); for (auto &kv : I.unsupported) u.push_back(kv.first + " x" + std::to_string(kv.second)); out["unsupported"] = std::move(u); }
     out["steps"] = (int64_t)I.steps; out["terms"] = (int64_t)TT.t.size(); out["merges"] = (int64_t)I.merges; out["symbolic_branches"] = (int64_t)I.symbolicBranches; out["masked_ops"] = (int64_t)I.masked; out["ptr_order_by_layout"] = (int64_t)I.layoutAssumed;
